@@ -71,11 +71,15 @@ def lanczos_cases(ctx):
     out = []
     for i in range(30 if ctx.quick else 200):
         n = int(rng.integers(2, 7))
-        kind = ["dense", "dense", "dense", "diag", "repeated"][i % 5]
-        A = gen_spd(rng, n, kind)
+        kind = ["dense", "dense", "nearinv", "diag", "repeated", "dense"][i % 6]
+        A = gen_spd(rng, n, "dense" if kind == "nearinv" and i % 4 == 0 else ("diag" if kind == "nearinv" else kind))
         v = rng.integers(-3, 4, size=n).astype(float)
         if not np.any(v):
             v[0] = 1.0
+        if kind == "nearinv":
+            # start vector close to an invariant subspace: small but legitimate residual norms
+            w, U = np.linalg.eigh(A)
+            v = U[:, 0] + 2.0 ** -int(rng.integers(6, 22)) * U[:, -1] + (2.0 ** -int(rng.integers(6, 22)) * U[:, 1] if n > 2 else 0.0)
         if kind == "diag" and i % 2:
             v[rng.integers(0, n)] = 0.0          # start vector inside an invariant subspace
             if not np.any(v):
@@ -115,8 +119,8 @@ def lanczos_checks(c, o):
         out.append(("lanczos-last", "lanczos_case %d %s %s %s %s %s %s" % (
             n, cqm(A), cql(o["v1"]), cql(beta[:order]), C.cq(TOL), cql(alpha[:order]), _last_basis(A, o, order))))
     else:
-        out.append(("breakdown", "breakdown_case %d %s %s %s %s %s" % (
-            n, cqm(A), cql(o["v1"]), cql(beta[:k]), C.cq(Fraction(1, 10 ** 16)), C.cq(float(alpha[k])))))
+        out.append(("breakdown", "breakdown_case %d %s %s %s %s %s %s" % (
+            n, cqm(A), cql(o["v1"]), cql(beta[:k]), C.cq(TOL), C.cq(Fraction(1, 10 ** 16)), C.cq(float(alpha[k])))))
         out.append(("lanczos", "lanczos_case %d %s %s %s %s %s %s" % (
             n, cqm(A), cql(o["v1"]), cql(beta[:k]), C.cq(TOL), cql(alpha[:k]), cqm(basis[:k + 1]))))
     return out
@@ -233,14 +237,14 @@ def elbo_checks(c, o_dir):
     logs = np.log(ev)
     out = [("elbo", "elbo_case %d %d %s %s %s %s %s" % (nrel, ns, cql(logs), cql(o["hs"]), C.cq(TOL),
                                                         C.cq(o["stats"]["lower_error"]), cql(o["samples"]))),
-           ("batches", "batches_case %d %d 0 %s" % (k, nb, C.clist([str(x) for x in o["batches"]])))]
+           ("batches", "batches_case %d %d 0 %s" % (k, nb, C.clist(["%d%%nat" % x for x in o["batches"]])))]
     # resumed: continue from the first batch's eigenpairs
     if len(o["batches"]) > 1:
         pre = o["batches"][0]
         vecs = np.load(os.path.join(d, "metric_signal_eigenvectors.npy"))
         o2 = run_elbo(m, k, record_batches=True, n_batches=nb, min_lh_eval=-1.0,
                       resume_eigenvectors=vecs[:, :pre], resume_eigenvalues=ev[:pre])
-        out.append(("batches-resume", "batches_case %d %d %d %s" % (k, nb, pre, C.clist([str(x) for x in o2["batches"]]))))
+        out.append(("batches-resume", "batches_case %d %d %d %s" % (k, nb, pre, C.clist(["%d%%nat" % x for x in o2["batches"]]))))
         c["_resume_mean"] = (o["stats"]["elbo_mean"], o2["stats"]["elbo_mean"])
     return out, o
 
@@ -270,6 +274,9 @@ def direct_failure(c):
         ritz = np.linalg.eigvalsh(T)
         if ritz[0] < ev[0] - 1e-9 * scale or ritz[-1] > ev[-1] + 1e-9 * scale:
             return ("lanczos-ritz", "Ritz values leave the spectrum of the operator")
+        if nst < order and np.max(np.abs(A @ V.T - V.T @ T)) > 1e-8 * scale:
+            return ("lanczos-breakdown", "breakdown reported after %d steps but the Krylov space is not invariant (|A V - V T| = %.2e)" % (
+                nst + 1, np.max(np.abs(A @ V.T - V.T @ T))))
         if nst < order and (np.any(o["alpha"][m:] != 0) or np.any(o["basis"][m:] != 0)):
             return ("lanczos-padding", "output is not zero-padded after the breakdown")
         if order == len(c["v"]) and nst >= order - 1:
@@ -341,7 +348,18 @@ def _classic_elbo(m):
     R, sig, d = np.array(m["R"]), np.array(m["sig"]), np.array(m["d"])
     nd, ns = R.shape
     dom, tgt = ift.UnstructuredDomain(ns), ift.UnstructuredDomain(nd)
-    Rop = ift.MatrixProductOperator(dom, R)
+
+    class _Mat(ift.LinearOperator):
+        def __init__(self):
+            self._domain = ift.DomainTuple.make(dom)
+            self._target = ift.DomainTuple.make(tgt)
+            self._capability = self.TIMES | self.ADJOINT_TIMES
+
+        def apply(self, x, mode):
+            self._check_input(x, mode)
+            v = x.asnumpy()
+            return ift.makeField(self._tgt(mode), R @ v if mode == self.TIMES else R.T @ v)
+    Rop = _Mat()
     N = ift.DiagonalOperator(ift.makeField(tgt, sig ** 2))
     lh = ift.GaussianEnergy(data=ift.makeField(tgt, d), inverse_covariance=N.inverse) @ Rop
     ham = ift.StandardHamiltonian(lh)
@@ -351,8 +369,8 @@ def _classic_elbo(m):
     Lmh = U @ np.diag(w ** -0.5) @ U.T
     res = [ift.makeField(dom, np.sqrt(ns) * Lmh[:, k]) for k in range(ns)]
     sl = ift.ResidualSampleList(ift.makeField(dom, mean), res + res, [False] * ns + [True] * ns)
-    e, st = ift.estimate_evidence_lower_bound(ham, sl, ns, min_lh_eval=-1.0, verbose=False)
-    return float(st["elbo_mean"]) if "elbo_mean" in st else float(np.mean([x for x in e]))
+    e, st = ift.estimate_evidence_lower_bound(ham, sl, min(nd, ns), compute_all=True, verbose=False)
+    return float(np.asarray(st["elbo_mean"].asnumpy()))
 
 
 # --------------------------------------------------------------------------------------------------
